@@ -69,6 +69,7 @@ def run(ctx):
     cov = simcommon.coverage_from(res, "Dynamic-membership histories in which half of the joiners fast-forward from a random peer's anchor "
         "(any pending join/leave inside the six-round window included) and keep gossiping. The fast-forward itself is replayed on the model: "
         "the block + frame + event bodies the victim received are compared with what the model of the SERVING node answers (kinds RB, RF, RC), "
+        "the premises of the reset-state and after-reset theorems are evaluated on the received data (kinds RS = frame_shapeb, RP = after_reset_premisesb), "
         "the model victim is reset from them (kind R) and from then on every observable of the reset node (events with round / Lamport / "
         "round-received and coordinates, round table, blocks, signatures, queues, counters, known map, validator-set table) is compared "
         "with the model after every action, like any other node. Oracle, after every action: blocks of reset nodes vs full-history "
